@@ -298,6 +298,11 @@ def strip_ops(named):
                       for n in named["nodes"]]}
 
 
+def _wf_of(problems):
+    """the walker's view of `Named.WfG`: no initializer listed twice, no empty entry name"""
+    return not any(p.startswith(("dup-initializer", "empty-graph-input")) for p in problems)
+
+
 def corrupt(named, rng):
     """A structurally damaged copy of a named graph (to exercise the reject paths of both checkers)."""
     g = copy.deepcopy(named)
@@ -312,7 +317,7 @@ def corrupt(named, rng):
     walk(g)
     if not flat:
         return g
-    how = rng.randrange(6)
+    how = rng.randrange(9)
     x, nd = rng.choice(flat)
     x2, nd2 = rng.choice(flat)
     if how == 0 and nd["outs"] and nd2["outs"]:
@@ -327,6 +332,20 @@ def corrupt(named, rng):
         nd["ins"][0] = nd2["outs"][0]  # may reach into a sibling/inner scope
     elif how == 5 and g["inputs"]:
         g["inputs"].append(g["inputs"][0])
+    elif how == 6:
+        # round 10: an initializer listed twice — under an input's name (defines nothing twice: only WfG
+        # fails) or under a fresh name; in the main graph or in the graph of the chosen node
+        tgt = rng.choice([g, x])
+        nm = rng.choice(tgt["inputs"]) if tgt["inputs"] and rng.random() < 0.6 else "dup_init"
+        tgt["inits"] = list(tgt["inits"]) + [nm, nm]
+    elif how == 7:
+        tgt = rng.choice([g, x])
+        if rng.random() < 0.5:
+            tgt["inputs"] = list(tgt["inputs"]) + [""]   # an empty graph-input name
+        else:
+            tgt["inits"] = list(tgt["inits"]) + [""]
+    elif how == 8 and g["inputs"]:
+        g["inits"] = list(g["inits"]) + [g["inputs"][0]]  # harmless: a default value for an input (accepted)
     return g
 
 
@@ -1073,17 +1092,27 @@ def run(ck: core.Check):
                 continue
             graphs = [r["named"]] + r["fnamed"]
             for gi, g in enumerate(graphs):
+                probs = L.walk_named(g)
                 reqs.append({"k": "check", "g": g})
-                expect.append(("real", not L.walk_named(g), r["spec"]))
+                expect.append(("real", not probs, r["spec"], _wf_of(probs)))
                 if gi == 0 and rng.random() < 0.5:
                     c = corrupt(g, rng)
+                    probs = L.walk_named(c)
                     reqs.append({"k": "check", "g": c})
-                    expect.append(("corrupt", not L.walk_named(c), c))
+                    expect.append(("corrupt", not probs, c, _wf_of(probs)))
         outs = drv.ask_many("C02", reqs)
-        mism = rej_real = n_rej = 0
-        for (kind, want, what), o in zip(expect, outs):
+        mism = rej_real = n_rej = n_notwf = wf_mism = 0
+        for (kind, want, what, want_wf), o in zip(expect, outs):
             got = o.get("accept")
             n_rej += int(got is False)
+            # round 10: `Named.wfB` (the hypothesis of checkStructural_complete, decided) vs the walker's two
+            # well-formedness clauses (an initializer listed twice, an empty graph input / initializer name)
+            n_notwf += int(o.get("wf") is False)
+            if o.get("wf") != want_wf:
+                wf_mism += 1
+                if wf_mism <= 2:
+                    ck.broken("correspondence", "C02 wfB (well-formedness clauses of the checker) vs walker",
+                              f"kind={kind} lean={o} walker_wf={want_wf} on={json.dumps(what)[:600]}")
             if got != want:
                 mism += 1
                 if mism <= 3:
@@ -1092,7 +1121,7 @@ def run(ck: core.Check):
             if kind == "real" and got is False:
                 rej_real += 1
         ck.cov["check_structural"] = {"graphs_checked": len(reqs), "rejected": n_rej, "real_rejected": rej_real,
-                                      "mismatches": mism}
+                                      "mismatches": mism, "not_well_formed": n_notwf, "wf_mismatches": wf_mism}
 
     # (c) naming correspondence
     if drv is not None:
